@@ -187,8 +187,8 @@ func gen(g *common.Gen) {
 			}
 			// structural mutations: model-vs-code comparison on reordered / duplicated / dropped / truncated elements
 			for j := 0; j < 3; j++ {
-				how := common.Pick(r, []string{"swap", "dup", "drop", "trunc", "move"})
-				g.Op("mut %d %s %s %d %d", r.Intn(2), txt, how, r.Intn(8), r.Intn(8))
+				how := common.Pick(r, []string{"swap", "dup", "drop", "trunc", "move", "width", "width"})
+				g.Op("mut %d %s %s %d %d", r.Intn(2), txt, how, r.Intn(8), r.Intn(10))
 				g.Stat("mut-" + how)
 			}
 		}
@@ -263,6 +263,19 @@ func mutate(b []byte, how string, a, c int) ([]byte, bool) {
 		p := parts[i]
 		parts = append(parts[:i], parts[i+1:]...)
 		parts = append(parts, p)
+	case "width":
+		// element i gets a value of c bytes (0..9): its own value cut or left-padded with zeros —
+		// a non-negative integer of 0, 3, 5, 6, 7 or 9 bytes is malformed (the NDN packet format knows
+		// the widths 1, 2, 4, 8 only), other field kinds just change their value
+		val := b[tl[i].valStart:tl[i].end]
+		nv := make([]byte, c)
+		if c <= len(val) {
+			copy(nv, val[len(val)-c:])
+		} else {
+			copy(nv[c-len(val):], val)
+		}
+		np := TLV(tl[i].typ, nv)
+		parts[i] = np
 	case "trunc":
 		n := (a*8 + c) % (len(b) + 1)
 		return append([]byte{}, b[:n]...), true
